@@ -235,6 +235,9 @@ pub struct Script {
     pub fault: Option<RespFault>,
     /// the connection fails (reset) after the client has written this many request bytes
     pub reset_request_after: Option<u32>,
+    /// loopback drivers only: pause this many milliseconds before every response segment (a slow, never silent peer)
+    #[serde(default)]
+    pub drip_ms: u32,
 }
 
 pub struct Response {
